@@ -24,27 +24,6 @@ def isWordChar (c : Char) : Bool := c == '_' || isAlpha c || isDigit c
 /-- `[_a-zA-Z]` -/
 def isIdStart (c : Char) : Bool := c == '_' || isAlpha c
 
-/-- Python `str.strip()` / `str.isspace()` characters -/
-def isPyWsU (c : Char) : Bool :=
-  let n := c.toNat
-  decide ((9 ≤ n ∧ n ≤ 13) ∨ (28 ≤ n ∧ n ≤ 32) ∨ n = 0x85 ∨ n = 0xa0 ∨ n = 0x1680 ∨ (0x2000 ≤ n ∧ n ≤ 0x200a) ∨
-    n = 0x2028 ∨ n = 0x2029 ∨ n = 0x202f ∨ n = 0x205f ∨ n = 0x3000)
-
-/-- JavaScript `String.prototype.trim()` characters (WhiteSpace + LineTerminator) -/
-def isJsWs (c : Char) : Bool :=
-  let n := c.toNat
-  decide ((9 ≤ n ∧ n ≤ 13) ∨ n = 32 ∨ n = 0xa0 ∨ n = 0x1680 ∨ (0x2000 ≤ n ∧ n ≤ 0x200a) ∨
-    n = 0x2028 ∨ n = 0x2029 ∨ n = 0x202f ∨ n = 0x205f ∨ n = 0x3000 ∨ n = 0xfeff)
-
-def stripBy (p : Char → Bool) (s : Str) : Str := ((s.dropWhile p).reverse.dropWhile p).reverse
-
-/-- Python `s.strip()` -/
-def pyStripU (s : Str) : Str := stripBy isPyWsU s
-/-- rbql.js `str_strip`: `src.replace(/^ +| +$/g, '')` -/
-def jsStrStrip (s : Str) : Str := stripBy (· == ' ') s
-/-- JavaScript `s.trim()` -/
-def jsTrim (s : Str) : Str := stripBy isJsWs s
-
 /-- the `$` of a look-ahead `(?=$|,)`: end of the text; in Python (no MULTILINE) also just before a final line feed -/
 def atEnd (py : Bool) (s : Str) : Bool := s.isEmpty || (py && s == [LF])
 
